@@ -353,6 +353,67 @@ fn c01_ctorinv_n3() { ctor_inv::<3>(); }
 #[kani::unwind(34)]
 fn c01_ctorinv_n6() { ctor_inv::<6>(); }
 
+/// the pair combinator with NON-commutative components behaves like its two components side by side
+/// (a slot-wise argument swap in merge/update/push/modify is invisible to min/max/sum)
+fn combinator_free<const N: usize>() {
+    use rlib_segtree::segtree_items::Combinator;
+    type Pair = Combinator<Seq, Seq>;
+    let la = any_letters::<N>();
+    let lb = any_letters::<N>();
+    let items: [Pair; N] = core::array::from_fn(|i| Combinator(Seq::one(la[i]), Seq::one(lb[i])));
+    let which: bool = kani::any();
+    let mut t = if which { Segtree::<Pair, Md>::from_slice(&items) } else { Segtree::<Pair, Md>::from_iter(items.into_iter()) };
+    let (mut ma, mut mb) = (la, lb);
+    // a pending modifier on the root and one on a strict sub-range, then a point assignment
+    let m1 = any_md();
+    let m2 = any_md();
+    t.modify(0, N - 1, &m1);
+    t.modify(N / 2, N - 1, &m2);
+    let mut i = 0;
+    while i < N {
+        ma[i] = m1.apply1(ma[i]);
+        mb[i] = m1.apply1(mb[i]);
+        if i >= N / 2 {
+            ma[i] = m2.apply1(ma[i]);
+            mb[i] = m2.apply1(mb[i]);
+        }
+        i += 1;
+    }
+    let x: u8 = kani::any();
+    let y: u8 = kani::any();
+    kani::assume(x < 16 && y < 16);
+    t.set(0, Combinator(Seq::one(x), Seq::one(y)));
+    ma[0] = x;
+    mb[0] = y;
+    let mut l = 0;
+    while l < N {
+        let mut r = l;
+        while r < N {
+            let got = t.ask(l, r);
+            assert!(got.0.len as usize == r - l + 1 && got.1.len as usize == r - l + 1);
+            let mut i = 0;
+            while i < N {
+                if l + i <= r {
+                    assert!(nib(got.0.v, i) == ma[l + i], "pair combinator: first component = its own tree");
+                    assert!(nib(got.1.v, i) == mb[l + i], "pair combinator: second component = its own tree");
+                }
+                i += 1;
+            }
+            r += 1;
+        }
+        l += 1;
+    }
+    kani::cover!(which);
+    kani::cover!(!which);
+    core::mem::forget(t);
+}
+#[kani::proof]
+#[kani::unwind(34)]
+fn c01_combinator_free_n3() { combinator_free::<3>(); }
+#[kani::proof]
+#[kani::unwind(34)]
+fn c01_combinator_free_n4() { combinator_free::<4>(); }
+
 #[kani::proof]
 #[kani::unwind(34)]
 fn c01_twin_false() {
